@@ -33,6 +33,11 @@ def check_file(ctx, model, nptdms, data, exhaustive, stats):
         vals = (ev.get(p.hex()) or (None, None))[0]
         if vals is None:
             vals = [] if ch.data_type is None or ch.data_type.enum_value != 0xFFFFFFFF else None
+        if vals is not None and len(vals) != n:
+            # nothing below makes sense if the lazily opened file disagrees with the eager read about the channel's length
+            vio.append(Violation("len(channel) = %d for %r on the lazily opened file, the eager read returns %d values" % (n, p, len(vals)),
+                                 dict(kind="length", file=data.hex(), path=p.hex(), lazy_len=n, eager_len=len(vals))))
+            continue
         ex = exhaustive and n <= 8
         ws = cl.windows_for(n, ctx.rnd, ex, sample=40)
         d, v = cl.compare_windows(model, data, f, st, ch, ws, vals, check_trace=False)
